@@ -294,6 +294,35 @@ def recursive_forest():
     return t
 
 
+def recursive_via_alias():
+    """a recursive type entered through an alias of it: `type Node = { next?: NodeAlias }; type NodeAlias = Node;` with the alias as root"""
+    nn, an = fresh('Node'), fresh('NodeAlias')
+    nref = {'t': 'ref', 'name': nn}
+    t = T(an, nref, [f'type {nn} = {{ v: number; next?: {an} }};', f'type {an} = {nn};'])
+    t.defs = {nn: O({'v': N, 'next': OPT(nref)})}
+    ALL_DEFS.update(t.defs)
+    return t
+
+
+def recursive_sexpr():
+    """recursion only through a tuple rest element: `type SExpr = string | [string, ...SExpr[]]`"""
+    name = fresh('SExpr')
+    spec = {'t': 'ref', 'name': name}
+    t = T(name, spec, [f'type {name} = string | [string, ...Array<{name}>];'])
+    t.defs = {name: {'t': 'anyof', 'xs': [S, {'t': 'tuple', 'prefix': [S], 'rest': spec}]}}
+    ALL_DEFS.update(t.defs)
+    return t
+
+
+def shared_in_tuple():
+    """a named type shared between the prefix and the rest of a tuple: `[Cell, ...Cell[]]`"""
+    cn = fresh('Cell')
+    cell = T(cn, O({'id': S, 'n': OPT(N)}), [f'type {cn} = {{ id: string; n?: number }};'])
+    t = tup([cell], rest=cell)
+    t.shared = [cn]
+    return t
+
+
 def programs(tier, rng, style=0):
     STYLE['v'] = style
     STYLE['n'] = 0
@@ -341,7 +370,7 @@ def programs(tier, rng, style=0):
             obj({'p': (tup([NUMBER, NUMBER]), False), 'q': (tup([NUMBER, NUMBER, NUMBER]), False)}), obj({'p': (tup([STRING, NUMBER]), False), 'q': (tup([NUMBER, STRING]), True)}),
             tup([tup([lit(1), lit('a')]), tup([lit('a'), lit(1)])]), obj({'s': (union(lit('x'), lit('y'), lit('z')), False), 't': (union(lit('z'), lit('y')), True)}),
             obj({'a-b': (STRING, True), 'c d': (NUMBER, False), '1x': (BOOLEAN, True)}), obj({'a.b': (STRING, False)}, index=STRING),
-            recursive_person_team(), shared_leaf(), shared_leaf(direct=False), recursive_forest(), arr(recursive_tree()), tup([recursive_tree(), recursive_tree()]),
+            recursive_person_team(), shared_leaf(), shared_leaf(direct=False), recursive_forest(), recursive_via_alias(), recursive_sexpr(), shared_in_tuple(), arr(recursive_tree()), tup([recursive_tree(), recursive_tree()]),
             obj({'id': (NUMBER, True), 'tag': (lit('a'), True)}, index=ANY), obj({'id': (NUMBER, True)}, index=union(NUMBER, STRING)),
             tup([]), tup([STRING], rest=NUMBER), tup([], rest=BOOLEAN), obj({}), obj({}, index=NUMBER), obj({'a': (STRING, False)}, index=union(STRING, NUMBER))]
     return out
